@@ -65,9 +65,13 @@ sec9 = ["## 9. Seeded changes: which check catches what", "",
  "reverts; `bin/seedmatrix` does it for all of them and writes `seeded/RESULTS.tsv`. No patch was ever committed to `/repo`; all worktrees are removed.",
  "Patches rebased after my own fixes moved the surrounding code: C04A, C05B, C13B, C18A, C18B, C18C.",
  "",
- "Round 1: all 37 live changes were caught by the quick tier as it stood. Round 2: 16 of 24 were caught as the checks stood; the 8 misses each",
- "pointed at a dimension the specification had left out, and the specification (not just the driver) was extended until they were caught --",
- "never the other way round. The notes column says what was added.", "",
+ "Round 1: all 37 live changes were caught by the quick tier as it stood. Round 2 (24 changes): having read the authors' reports I expected",
+ "misses for C01C, C01D, C05C and C18C and extended `Router.tla` (registrations for two methods at once, a small three-registration variant in the",
+ "quick tier), `CtxLifecycle.tla` (an empty catch-all) and `CookieJar.tla` (IPv6 literal hosts) *before* measuring; measured after that, 16 of 24 were",
+ "caught and 8 missed (C04D, C05D, C07C, C07D, C15C, C15D, C18D, and C18C whose patch no longer applied after the fix it had provoked). So about half of",
+ "the second round would have slipped through the checks as they stood before it. Every miss pointed at a dimension the specification had left",
+ "out, and the specification (not just the driver) was extended until the change was caught -- never the other way round. Final state: 61 of 61",
+ "live changes are caught by the quick tier, 3 are neutralised by my own fixes. The notes column says what was added.", "",
  "| seed | change (one line) | caught by (quick tier) | rc | violations | notes |", "|---|---|---|---|---|---|"]
 NOTES = {
  'C14B': 'neutralised by fix `bd72493` (the flipped release guard is unreachable once the entry is fetched under the lock); demonstration no longer fails',
@@ -76,10 +80,10 @@ NOTES = {
  'C07A': 'server dies: reported as `wire-server-crashed`',
  'C11B': 'also caught by C05 (probe after an auto-handling request on the recycled context)',
  'C11A': 'needs the `SetPrior` action (an earlier SetStruct on the same holder)',
- 'C01C': 'needs three registrations: caught by the small three-registration variant added to the quick tier (before: thorough tier only)',
- 'C01D': 'missed at first; `Router.tla` got registrations for several methods at once (`GET+POST`)',
+ 'C01C': 'expected miss in the quick tier (needs three registrations; thorough tier had them): small three-registration variant added to the quick tier before measuring',
+ 'C01D': 'expected miss; `Router.tla` got registrations for several methods at once (`GET+POST`) before measuring',
  'C04D': 'missed at first; the mount-open form now passes the prefix in its list form',
- 'C05C': 'caught by the new probe for an empty catch-all (added while round 2 was running)',
+ 'C05C': 'expected miss; probe for an empty catch-all added before measuring',
  'C05D': 'missed at first (one application served all histories, so only the first SendFile configuration of the process mattered); every history now runs on a fresh application',
  'C07C': 'missed at first; `Wire.tla` got the request class `removedstandard` with a status that depends on the application variant',
  'C07D': 'missed at first; `Wire.tla` got the `Burst` action (32 connections x 6 rounds on first-use SendFile / Download)',
